@@ -41,6 +41,9 @@ pub enum Op {
     /// `start_sync`; document 2 is unknown to the store (the open fails)
     Start { d: u8 },
     Leave { d: u8, kill: bool },
+    /// somebody else closes the document in the store actor (the live actor's handle is released behind
+    /// its back): the next `leave` fails half-way
+    ForceClose { d: u8 },
     Sub { d: u8 },
     DropChan { c: u8 },
     Nup { d: u8, p: u8 },
@@ -189,7 +192,7 @@ impl Property for Live {
         false
     }
     fn rule(&self) -> String {
-        "histories of 6-40 handler calls on one real live actor (hook H9; its loop does not run) over two documents it can sync and one the store does not know, three peers (ids below and above the node's), four contents (one present in the blob store): start_sync / leave (with and without killing subscribers), subscriptions and vanished subscribers, neighbours up and down, replica events (applied local writes; applied remote entries with every content status, download flag on and off, provider bytes that are no node id), download completions (ok / failed, also for hashes never queued), neighbours announcing content, sync reports (older, equal, newer, unknown author, undecodable), incoming requests, dial decisions with every reason, connect and accept task completions of every kind (success with and without received entries, heads too large for a gossip message, declined, failed, unnamed); non-trivial = at least one download decision and one session completion while syncing; distinct = distinct concrete histories".into()
+        "histories of 6-40 handler calls on one real live actor (hook H9; its loop does not run) over two documents it can sync and one the store does not know, three peers (ids below and above the node's), four contents (one present in the blob store): start_sync / leave (with and without killing subscribers; also after the replica was closed behind the live actor's back, so that leave fails half-way), subscriptions and vanished subscribers, neighbours up and down, replica events (applied local writes; applied remote entries with every content status, download flag on and off, provider bytes that are no node id), download completions (ok / failed, also for hashes never queued), neighbours announcing content, sync reports (older, equal, newer, unknown author, undecodable), incoming requests, dial decisions with every reason, connect and accept task completions of every kind (success with and without received entries, heads too large for a gossip message, declined, failed, unnamed); non-trivial = at least one download decision and one session completion while syncing; distinct = distinct concrete histories".into()
     }
     fn corpus(&self) -> Vec<(String, Vec<Op>)> {
         vec![
@@ -198,6 +201,7 @@ impl Property for Live {
             ("live-local-write-broadcast-only-while-syncing".into(), vec![Op::Local { d: 0, e: 0 }, Op::Start { d: 0 }, Op::Local { d: 0, e: 1 }, Op::Local { d: 1, e: 2 }, Op::Leave { d: 0, kill: false }, Op::Local { d: 0, e: 3 }]),
             ("live-report-while-busy-follow-up".into(), vec![Op::Start { d: 0 }, Op::Dial { d: 0, p: 0, reason: 1 }, Op::Report { p: 0, d: 0, v: 2 }, Op::CFin { d: 0, p: 0, reason: 1, res: 1 }, Op::CFin { d: 0, p: 0, reason: 3, res: 2 }]),
             ("live-known-peers-dialled-on-start".into(), vec![Op::Start { d: 0 }, Op::Accept { d: 0, p: 1 }, Op::AFin { d: 0, p: 1, kind: 0 }, Op::Leave { d: 0, kill: true }, Op::Start { d: 0 }, Op::Start { d: 2 }]),
+            ("live-leave-fails-half-way".into(), vec![Op::Start { d: 0 }, Op::Sub { d: 0 }, Op::ForceClose { d: 0 }, Op::Leave { d: 0, kill: true }, Op::Local { d: 0, e: 0 }, Op::Start { d: 0 }, Op::Local { d: 0, e: 1 }, Op::Leave { d: 0, kill: true }]),
             ("live-heads-too-large-for-gossip".into(), vec![Op::Start { d: 0 }, Op::Dial { d: 0, p: 2, reason: 0 }, Op::CFin { d: 0, p: 2, reason: 0, res: 4 }]),
         ]
     }
@@ -217,7 +221,7 @@ impl Property for Live {
             let h = rng.below(N_HASH) as u8;
             let op = match rng.below(30) {
                 0 => Op::Start { d },
-                1 => Op::Leave { d, kill: rng.chance(1, 2) },
+                1 => if rng.chance(1, 4) { Op::ForceClose { d } } else { Op::Leave { d, kill: rng.chance(1, 2) } },
                 2 | 3 => Op::Sub { d },
                 4 => Op::DropChan { c: rng.below(4) as u8 },
                 5 => Op::Nup { d, p },
@@ -243,7 +247,7 @@ impl Property for Live {
         let mut f = vec![];
         for o in ops {
             f.push(match o {
-                Op::Start { .. } => "start", Op::Leave { .. } => "leave", Op::Sub { .. } => "subscribe", Op::DropChan { .. } => "drop-subscriber",
+                Op::Start { .. } => "start", Op::Leave { .. } => "leave", Op::ForceClose { .. } => "closed-behind-its-back", Op::Sub { .. } => "subscribe", Op::DropChan { .. } => "drop-subscriber",
                 Op::Nup { .. } => "neighbor-up", Op::Ndown { .. } => "neighbor-down", Op::Local { .. } => "local-insert-event",
                 Op::Remote { dl: true, status: 0, .. } => "remote-event-download", Op::Remote { dl: true, .. } => "remote-event-missing", Op::Remote { .. } => "remote-event-no-download",
                 Op::DlReady { ok: true, .. } => "download-ok", Op::DlReady { .. } => "download-failed", Op::CReady { .. } => "neighbor-content-ready",
@@ -307,6 +311,8 @@ impl Property for Live {
             let _ = iroh_docs::verif::take_broadcasts();
             let _ = iroh_docs::verif::take_downloads();
             let mut chans: Vec<(usize, Option<async_channel::Receiver<ActorEvent>>)> = vec![];
+            // documents whose replica was closed behind the live actor's back
+            let mut force_closed = [false; 3];
             let watch: Vec<String> = ids.iter().flat_map(|n| ps.iter().map(move |p| format!("{}:{}", hex(n.as_bytes()), hex(p.as_bytes())))).collect();
             let mk_fin = |d: usize, p: usize, recv: usize, heads: AuthorHeads| SyncFinished {
                 namespace: ids[d],
@@ -342,18 +348,37 @@ impl Property for Live {
                 let tok = match op {
                     Op::Start { d } => {
                         let d_ = *d as usize % 3;
-                        let known = peers_of(sync, ids[d_]).await;
                         let was_syncing = coord.docs_snapshot(&ids).0.iter().any(|x| x.0 == ids[d_]);
+                        // what the live actor's own `get_sync_peers` will answer: the request needs an open
+                        // document, and an already syncing document is not opened again
+                        let known = if was_syncing && force_closed[d_] { vec![] } else { peers_of(sync, ids[d_]).await };
                         let r = coord.start_sync(ids[d_]).await;
+                        if !was_syncing && r.is_ok() {
+                            force_closed[d_] = false;
+                        }
                         reply = format!("reply:{}", r.is_ok() as u8);
                         let open_ok = d_ != 2;
                         let _ = was_syncing;
                         format!("start {} {} {}", nsx(d), open_ok as u8, join_or(known.iter().map(|p| hex(p)).collect(), false))
                     }
                     Op::Leave { d, kill } => {
-                        let r = coord.leave(ids[*d as usize % 3], *kill).await;
+                        let d_ = *d as usize % 3;
+                        let syncing = coord.docs_snapshot(&ids).0.iter().any(|x| x.0 == ids[d_]);
+                        let store_ok = !(syncing && force_closed[d_]);
+                        let r = coord.leave(ids[d_], *kill).await;
+                        force_closed[d_] = false;
                         reply = format!("reply:{}", r.is_ok() as u8);
-                        format!("leave {} {}", nsx(d), *kill as u8)
+                        format!("leave {} {} {}", nsx(d), *kill as u8, store_ok as u8)
+                    }
+                    Op::ForceClose { d } => {
+                        let d_ = *d as usize % 3;
+                        let syncing = coord.docs_snapshot(&ids).0.iter().any(|x| x.0 == ids[d_]);
+                        if syncing && !force_closed[d_] {
+                            sync.close(ids[d_]).await.ok();
+                            force_closed[d_] = true;
+                        }
+                        // not a handler of the live actor: its state must not move
+                        "dropchan 9999".to_string()
                     }
                     Op::Sub { d } => {
                         let (tx, rx) = async_channel::unbounded();
